@@ -356,6 +356,37 @@ RevLoops(log) ==
                        IN a + (m - 1 - (p \div L)) * L + (p % L)
     IN [i \in 1..n |-> log[src(i)]]
 
+\* Order comparison of two logs.  The order of the neighbours of one
+\* destination particle is not promised; everything else is.  NormLog sorts
+\* (stably) the loop events of every maximal run belonging to one
+\* (destination array, destination particle, source array) by source index;
+\* two logs describe the same documented behaviour iff their normal forms
+\* are equal.  (AccelEval!Canon identifies a run by (d, a) only and merges
+\* adjacent runs of two destination ARRAYS; dest = [eid |-> destination array]
+\* keeps them apart.)
+NormLog(log, dest) ==
+    LET n == Len(log)
+        same(i, j) == /\ IsLoop(log[i]) /\ IsLoop(log[j])
+                      /\ log[i].d = log[j].d /\ log[i].a = log[j].a
+                      /\ dest[log[i].id] = dest[log[j].id]
+        endOf[i \in 1..n] == IF i < n /\ same(i, i + 1) THEN endOf[i + 1] ELSE i
+        startOf[i \in 1..n] == IF i > 1 /\ same(i - 1, i) THEN startOf[i - 1] ELSE i
+        lo == [i \in 1..n |-> startOf[i]]
+        hi == [i \in 1..n |-> endOf[i]]
+        rk == [i \in 1..n |->
+                 IF ~IsLoop(log[i]) THEN 0
+                 ELSE Cardinality({j \in lo[i]..hi[i] :
+                        log[j].s < log[i].s \/ (log[j].s = log[i].s /\ j < i)})]
+    IN [p \in 1..n |->
+          IF ~IsLoop(log[p]) THEN log[p]
+          ELSE log[CHOOSE i \in lo[p]..hi[p] : rk[i] = p - lo[p]]]
+DestOf(prog) == LET E == ProgEqs(prog)
+                IN [id \in {E[i].eid : i \in DOMAIN E} |->
+                       E[CHOOSE i \in DOMAIN E : E[i].eid = id].dest]
+\* first position where the normal forms differ (0: the logs agree)
+OrderDiff(prog, log1, log2) ==
+    FirstDiff(NormLog(log1, DestOf(prog)), NormLog(log2, DestOf(prog)))
+
 \* well-formedness of a case: the data conventions the exactness argument
 \* rests on, and read/write discipline that makes sums order independent
 BaseProps == {"x", "y", "z", "h", "m", "rho", "u", "v", "w"}
